@@ -10,7 +10,7 @@
       defaults and before the positional reads.
     * `fill` — executes that statement list on a parameter list; attribute store = assoc list, a missing key is the
       `AttributeError` Python raises when the attribute is read.
-    * hand-written residual classes (statements that do not fit the slot pattern): PART, DAMP, SWAT, SUMP, TWIN,
+    * hand-written residual classes (statements that do not fit the slot pattern): PART, SUMP, TWIN,
       LATT, HTAB, LSCycles (with its `number` setter / `_as_str`), WGHT/PLAN printers for the setter round trip.
   SPEC (code independent): `syntaxTable` (keyword -> ordered parameters, widths, kinds, defaults; SHELXL manual,
     DESIGN.md Appendix A), `formLens` (legal parameter prefixes), `specVal` (value a parameter denotes in a form).
@@ -204,7 +204,7 @@ def syntaxTable : List Syntax := [
   ⟨"PLAN", "PLAN", [df "npeaks" "npeaks" 20 .int, ng "d1" "d1", ng "d2" "d2"], false⟩,
   ⟨"PRIG", "PRIG", [ng "p" "p"], false⟩,
   ⟨"SHEL", "SHEL", [ng "lowres" "lowres", df "highres" "highres" 0], false⟩,       -- lowres[infinite]: "not given"
-  ⟨"SIZE", "SIZE", [ng "dx" "dx", ng "dy" "dy", ng "dz" "dz"], false⟩,
+  ⟨"SIZE", "SIZE", [rq "dx" "dx", rq "dy" "dy", rq "dz" "dz"], false⟩,
   ⟨"SPEC", "SPEC", [df "del" "d" 0.2], false⟩,
   ⟨"STIR", "STIR", [rq "sres" "sres", df "step" "step" 0.01], false⟩,
   ⟨"TWST", "TWST", [df "N" "N" 1], false⟩,                                          -- N[1] since SHELXL-2018/3
@@ -226,16 +226,16 @@ def syntaxTable : List Syntax := [
   ⟨"ISOR", "ISOR", [df "s" "s" 0.1, df "st" "st" 0.2], true⟩,
   ⟨"NCSY", "NCSY", [rq "DN" "DN", df "sd" "sd" 0.1, df "su" "su" 0.05], true⟩,
   ⟨"BUMP", "BUMP", [df "s" "s" 0.02], false⟩,
-  -- classes whose constructor is not table shaped (hand-written models below)
-  ⟨"PART", "PART", [rq "n" "n" .int, df "sof" "sof" 11], false⟩,
   ⟨"DAMP", "DAMP", [df "damp" "damp" 0.7, df "limse" "limse" 15], false⟩,
   ⟨"SWAT", "SWAT", [df "g" "g" 0, df "U" "U" 2], false⟩,
+  -- classes whose constructor is not table shaped (hand-written models below)
+  ⟨"PART", "PART", [rq "n" "n" .int, df "sof" "sof" 11], false⟩,
   ⟨"LATT", "LATT", [df "N" "N" 1 .int], false⟩,
   ⟨"TWIN", "TWIN", [⟨"r11...r33", "matrix", 9, .real, .const (.nums [-1, 0, 0, 0, -1, 0, 0, 0, -1])⟩,
                     df "N" "n_value" 2 .int], false⟩,
   ⟨"HTAB", "HTAB", [df "dh" "dh" 2], false⟩,
-  ⟨"L.S.", "LSCycles", [rq "nls" "cycles" .int, df "nrf" "nrf" 0 .int, df "nextra" "nextra" 0 .int], false⟩,
-  ⟨"CGLS", "LSCycles", [rq "nls" "cycles" .int, df "nrf" "nrf" 0 .int, df "nextra" "nextra" 0 .int], false⟩,
+  ⟨"L.S.", "LSCycles", [rq "nls" "number" .int, df "nrf" "_nrf" 0 .int, df "nextra" "_nextra" 0 .int], false⟩,
+  ⟨"CGLS", "LSCycles", [rq "nls" "number" .int, df "nrf" "_nrf" 0 .int, df "nextra" "_nextra" 0 .int], false⟩,
   ⟨"SUMP", "SUMP", [rq "c" "c", rq "sigma" "sigma", ⟨"c1 m1 ...", "fvars", 0, .real, .req⟩], false⟩,
   ⟨"BASF", "BASF", [⟨"k ...", "scale_factors", 0, .real, .req⟩], false⟩,
   ⟨"UNIT", "UNIT", [⟨"n ...", "values", 0, .real, .req⟩], false⟩,
@@ -375,26 +375,11 @@ def partModel (ps : List Rat) : Obj :=
   let o := match ps[0]? with | some r => o.set "n" (.num (pyInt r)) | none => o
   match ps[1]? with | some r => o.set "sof" (.num r) | none => o
 
-/-- `DAMP.__init__`: defaults, `damp = values[0]`, then `damp, limse = values` (exactly two values, else ValueError) -/
-def dampModel (d0 l0 : Rat) (ps : List Rat) : Except PyErr Obj :=
-  let o : Obj := [("damp", .num d0), ("limse", .num l0)]
-  match ps with
-  | [] => .ok o
-  | [a] => .ok (o.set "damp" (.num a))
-  | [a, b] => .ok ((o.set "damp" (.num a)).set "limse" (.num b))
-  | _ => .error .ValueError
-
-/-- `SWAT.__init__` as repaired: defaults g = 0, U = 2, positional reads -/
-def swatModel (ps : List Rat) : Obj :=
-  let o : Obj := [("g", .num 0), ("U", .num 2)]
-  let o := match ps[0]? with | some r => o.set "g" (.num r) | none => o
-  match ps[1]? with | some r => o.set "U" (.num r) | none => o
-
-/-- `LATT.__init__`: `N = int(p[0])` (IndexError on a bare LATT) -/
-def lattModel (ps : List Rat) : Except PyErr Obj :=
+/-- `LATT.__init__`: `N = int(p[0])`, a bare LATT is the documented N = 1 -/
+def lattModel (ps : List Rat) : Obj :=
   match ps[0]? with
-  | some r => .ok [("N", .num (pyInt r))]
-  | none => .error .IndexError
+  | some r => [("N", .num (pyInt r))]
+  | none => [("N", .num 1)]
 
 /-- `TWIN.__init__`: bare -> defaults; 9 values -> matrix; 10 -> matrix + N; anything else ParseNumError -/
 def twinModel (ps : List Rat) : Except PyErr Obj :=
@@ -459,8 +444,8 @@ def lsDenotes (ts : List Int) : Option (Int × Int × Int) :=
 
 def LS.denotes (l : LS) : Int × Int × Int := (l.cycles, l.nrf.getD 0, l.nextra.getD 0)
 
-/-- `Shelxfile.update_weight` copies the six fields; `WGHT._as_string` prints a, b and — unless c+d+e+f is the
-    default sum — c d e f. The printed tokens denote (a,b,c,d,e,f) with the documented defaults for omitted ones. -/
+/-- `Shelxfile.update_weight` copies the six fields; `WGHT._as_string` prints a, b and — unless c, d, e, f all
+    have their defaults — c d e f. The printed tokens denote (a,b,c,d,e,f) with the documented defaults for omitted ones. -/
 structure W where
   a : Rat
   b : Rat
@@ -471,7 +456,7 @@ structure W where
 deriving DecidableEq, Repr
 
 def wghtTokens (w : W) : List Rat :=
-  if w.c + w.d + w.e + w.f ≠ 0.33333 then [w.a, w.b, w.c, w.d, w.e, w.f] else [w.a, w.b]
+  if (w.c, w.d, w.e, w.f) ≠ ((0 : Rat), (0 : Rat), (0 : Rat), (0.33333 : Rat)) then [w.a, w.b, w.c, w.d, w.e, w.f] else [w.a, w.b]
 
 def wghtDenotes (ts : List Rat) : Option W :=
   match ts with
